@@ -76,21 +76,8 @@ def r1_what_is_written(w):
         v = c.view(b)
         recv = v.describe_operand(t['args'][0])
         cons = {'fn': b.short, 'call': p, 'receiver': recv}
-        # receiver: Typstyle::new(<option mapping of args.style>), possibly built once and cloned per file
-        CL = re.compile(r'Clone>::clone$|Clone::clone$|Deref>::deref$|Deref::deref$|::borrow$')
-        from rules import c16
-        tc = c16._to_config(c)
-        news = v.pv.through(v.pv.origins_operand(t['args'][0]), CL)
-        via_mapping = bool(news)
-        for o in news:
-            if not (o[0] == 'call' and not o[2] and (resolved_path(v.pv.call_term(o)) or '').endswith('Typstyle::new')):
-                via_mapping = False
-                continue
-            srcs = v.pv.through(v.pv.origins_operand(v.pv.call_term(o)['args'][0]), CL)
-            if not (srcs and all(x[0] == 'call' and not x[2] and resolved_id(v.pv.call_term(x)) == tc.id
-                                 and v.describe_operand(v.pv.call_term(x)['args'][0]) in ('field:typstyle::cli::CliArguments.style', '&field:typstyle::cli::CliArguments.style') for x in srcs)):
-                via_mapping = False
-        if re.match(r'^call:typstyle_core::\{impl#\d+\}::new\(call:typstyle::fmt::\{impl#\d+\}::to_config\(field:typstyle::cli::CliArguments\.style\)\)$', recv) or via_mapping:
+        via_mapping, why_m = c.formatter_ok(b, t['args'][0])
+        if via_mapping:
             r.ok(cons, 'Typstyle::new(args.style.to_config())')
         else:
             r.bad(cons, '%s|config' % b.short, 'library call in %s is not configured by the option mapping of args.style: %s' % (b.short, recv), b.loc(t['span']))
